@@ -6,7 +6,7 @@ from ..engine import Finding
 
 ID = 'C18'
 TITLE = 'decorators are transparent: same results, same signature, no double wrapping'
-LEAN_FILES = ['Basic', 'Bind', 'Cache', 'Wrap', 'WrapHist', 'Try', 'BindDriver', 'Cmp', 'BindLemmas', 'CacheLemmas', 'CacheKeyLemmas', 'WrapLemmas', 'WrapHistLemmas', 'WrapHistSharp', 'Pd2npLemmas', 'ResDec', 'C18']
+LEAN_FILES = ['Basic', 'Bind', 'Cache', 'Wrap', 'WrapHist', 'Try', 'BindDriver', 'Cmp', 'BindLemmas', 'CacheLemmas', 'CacheKeyLemmas', 'WrapLemmas', 'WrapHistLemmas', 'WrapHistSharp', 'Pd2npLemmas', 'ResDec', 'C18', 'WrapLoops', 'WrapLoopsLemmas', 'Lift']
 RULE = ('distinct protocol lines (inside the domain of the model) on which the implementation returned a value: a (signature, call) pair bound / called / '
         'round-tripped, a (signature, decorator stack, call) triple, a construction sequence of wrappers, or a cache history '
         '(on a cached function or through a decorator stack) with at least two calls; calls without any argument on a parameterless function are not counted')
@@ -618,6 +618,40 @@ def generate(rng, tier):
         line = '(deco stack %s %s %s %s)' % (sig_enc(sig), decos_enc(ds), enc(args), enc(kw))
         yield dict(tag='stack len=%d loops with a %s first argument of a %s type' % (len(ds), type(v).__name__, 'looped' if outside_loops_domain(line) else 'non-looped'),
                    lines=[line])
+    # round k6: `stackx` lines - the model whose loops layers LOOP (PygModel/WrapLoops.lean, evalChainL) answers every line: a list /
+    # tuple / dict first argument of a looped type (one call of the layers below per element, at every depth, companions selected
+    # by position / key as in C19, raising leaves, empty containers) and of a non-looped type (forwarded whole); inside the domain
+    # evalChainL = evalChain is a theorem (evalChainL_in_domain), outside it the lines are a MODEL EXTENSION (C19's subject)
+    xconts = conts + [[1, '!v', 3], {'p': [1, 2], 'q': (3, '!k')}, [[1, 2], [3, 4]], [(1, 2), {'p': 5}], {'q': 1, 'p': 2}, [[]], ([], ())]
+    xtypes = [['list'], ['tuple'], ['dict'], ['list', 'tuple'], ['dict', 'list'], ['list', 'tuple', 'dict']]
+    for _ in range(300 if q else 6000):
+        sig, args, kw = rng.choice(withfirst)
+        args, kw = list(args), dict(kw)
+        v = rng.choice(xconts)
+        if args:
+            args[0] = v
+        else:
+            kw[sig[0][0]] = v
+        # companions: another argument becomes a container as long as v (matched element by element), of another length
+        # (searched / broadcast) or stays a scalar
+        if isinstance(v, (list, tuple)) and rng.random() < 0.5:
+            comp = rng.choice([[10 * (j + 1) for j in range(len(v))], tuple('c%d' % j for j in range(len(v))), [7, 8, 9, 10, 11], {'p': 1}])
+            if len(args) > 1 and rng.random() < 0.5:
+                args[-1] = comp
+            else:
+                ks = [k for k in kw if not (sig[0] and k == sig[0][0])]
+                if ks:
+                    kw[rng.choice(sorted(ks))] = comp
+        if isinstance(v, dict) and rng.random() < 0.5:
+            comp = rng.choice([{k: 'c' + k for k in reversed(list(v))}, {'zz': 1}, [1, 2]])
+            if len(args) > 1:
+                args[-1] = comp
+        cl = ['loops'] + rng.sample([c for c in CLASSES if c != 'loops'], rng.choice([0, 0, 1, 2]))
+        rng.shuffle(cl)
+        ds = [(c, dict(types=rng.choice(xtypes)) if c == 'loops' else deco_params(rng, c)) for c in cl]
+        line = '(deco stackx %s %s %s %s)' % (sig_enc(sig), decos_enc(ds), enc(args), enc(kw))
+        yield dict(tag='stackx len=%d loops on a %s of a %s type' % (len(ds), type(v).__name__, 'looped' if outside_loops_domain(line) else 'non-looped'),
+                   lines=[line])
     # construction: every sequence of <= 4 constructor applications (the same class may re-occur at any distance)
     seqs = list(itertools.product(CLASSES, repeat=4))
     for k in (1, 2, 3):
@@ -753,7 +787,7 @@ def run_line(state, sx):
                 r = res_val(lambda: g(*args, **kw))
                 out.append((r, Counter.n))
         return 'ok ' + enc(out)
-    if op == 'stack':
+    if op in ('stack', 'stackx'):
         g = f
         for cls, params in decos_dec(a[1]):
             g = construct(cls, params, g)
@@ -789,7 +823,7 @@ def outside_loops_domain(line):
     dispatches on a list / tuple / dict of one of its `types`: the wrapper loops over it - outside "loops on non-container input".
     No other layer changes the kind of the first argument (kwargs_support keeps declared keywords, pd2np rebuilds containers)"""
     sx = proto.parse(line)
-    if sx[1] != 'stack':
+    if sx[1] not in ('stack', 'stackx'):
         return False
     params = sig_dec(sx[2])[0]
     types = None
@@ -820,6 +854,10 @@ def compare(case, i, line, ir, mr):
         return None
     tag = case.get('tag', '')
     op = proto.parse(line)[1]
+    if op == 'stackx' and outside_loops_domain(line):
+        # loops on a container of a looped type is property C19's subject, outside "loops on non-container input": the looping
+        # stack model is an extension there
+        return ('divergence', 'loops on a container of a looped type (model extension evalChainL): implementation %s, model %s' % (ir, mr))
     if 'invalid' in tag and op in ('getcallargs', 'roundtrip'):
         return ('divergence', 'invalid call (the property is about valid calls): implementation %s, model %s' % (ir, mr))
     if op == 'bindref':
